@@ -30,6 +30,11 @@ pub enum Op {
     ReorgAway1,
     ReorgAway2,
     ReorgBack,
+    /// the wallet mints an NFT from one of its outputs; the payload (a deposit) goes to another key,
+    /// the rest comes back as change. Not part of the breadth-first alphabet (part 4 only)
+    MintNft,
+    /// the same with the whole output deposited (no change)
+    MintNftNoChange,
 }
 pub const OPS: [Op; 11] = [Op::Block, Op::In1, Op::OutSmall, Op::In2, Op::OutSmallFee, Op::OutAll, Op::OutTooMuch, Op::OutExternal, Op::ReorgAway1, Op::ReorgAway2, Op::ReorgBack];
 
@@ -150,6 +155,36 @@ fn apply(w: &mut W, op: Op, rep: &mut Report, hist: &[Op]) -> bool {
             let outs = if op == Op::In1 { vec![(me, 30_000 + w.ctr), (k1.public, s.amount - 30_000 - w.ctr)] } else { vec![(me, 11_000 + w.ctr), (me, 12_000 + w.ctr), (k1.public, s.amount - 23_000 - 2 * w.ctr)] };
             let t = make_tx(&[s], &outs, &k1, w.p.tip_ts + 5, b"in");
             matches!(w.p.submit(t), Outcome::Done(true))
+        }
+        Op::MintNft | Op::MintNftNoChange => {
+            let pooled: BTreeSet<SaitoUTXOSetKey> = w.p.node.obs().pool_utxo_map.into_iter().collect();
+            let pick = {
+                let wal = w.p.node.wallet.try_read().unwrap();
+                let mut v: Vec<Slip> = wal.unspent_slips.iter().filter(|k| !pooled.contains(*k)).filter_map(|k| Slip::parse_slip_from_utxokey(k).ok()).filter(|s| s.amount > 10_000 && s.slip_type == SlipType::Normal).collect();
+                v.sort_by_key(|s| (s.block_id, s.tx_ordinal, s.slip_index));
+                v.into_iter().next()
+            };
+            let Some(s) = pick else { return false };
+            let deposit = if op == Op::MintNftNoChange { s.amount } else { 4_000 };
+            let wl = w.p.node.wallet.clone();
+            let (tip, g) = (w.p.tip_id, w.g);
+            let to = key(2).public;
+            let sc = s.clone();
+            let r = run(async move {
+                let mut wal = wl.write().await;
+                wal.create_bound_transaction(sc.amount, sc.block_id, sc.tx_ordinal, sc.slip_index as u64, deposit, vec![1, 2, 3], &to, None, tip, g, "art".to_string()).await
+            });
+            match r {
+                Outcome::Done(Ok(t)) => {
+                    rep.outcome("wallet-minted-nft");
+                    matches!(w.p.submit(t), Outcome::Done(true))
+                }
+                Outcome::Done(Err(_)) => false,
+                o => {
+                    rep.violate("abort/create_bound_transaction", o.label(), ctx.clone());
+                    false
+                }
+            }
         }
         Op::OutSmall | Op::OutSmallFee | Op::OutAll | Op::OutTooMuch => {
             let bal = balance(w);
@@ -610,6 +645,52 @@ fn passive_wallets(rep: &mut Report, tier: &Tier) {
 /// digest of a wallet-world state: the observable state plus the pool's iteration order (the
 /// order in which the next block will carry the pooled transactions decides the coordinates
 /// of the outputs the wallet is going to own)
+/// Part 4 -- the wallet mints an NFT. After an incoming payment is confirmed the wallet mints an
+/// NFT from it (deposit to another key with change, or the whole output deposited), the mint is
+/// confirmed, and every sequence of up to two further operations follows; the invariants are
+/// evaluated after every step (the consumed output leaves the wallet with the mint's block).
+fn minting_wallets(rep: &mut Report) {
+    let tails = [Op::Block, Op::OutSmall, Op::OutAll, Op::In1, Op::ReorgAway1, Op::ReorgBack];
+    let mut hs: Vec<Vec<Op>> = vec![];
+    for mint in [Op::MintNft, Op::MintNftNoChange] {
+        for pre in [vec![Op::In1, Op::Block], vec![Op::In2, Op::Block], vec![Op::In1, Op::Block, Op::In1, Op::Block]] {
+            let mut base = pre.clone();
+            base.push(mint);
+            base.push(Op::Block);
+            hs.push(base.clone());
+            for a in tails {
+                let mut h1 = base.clone();
+                h1.push(a);
+                hs.push(h1.clone());
+                for b in tails {
+                    let mut h2 = h1.clone();
+                    h2.push(b);
+                    hs.push(h2);
+                }
+            }
+        }
+    }
+    let results = par_map(&hs, workers(), |_, h| {
+        let mut r = rep.child();
+        for i in 3..=h.len() {
+            let hh = &h[..i];
+            r.evaluations += 1;
+            r.transitions += 1;
+            let Some((w, ok)) = replay(6, hh, &mut r) else { return r };
+            if !ok {
+                r.outcome("minting-wallet:op-not-applicable");
+                return r;
+            }
+            invariants_tagged(&w, &mut r, hh, "/minting-wallet");
+        }
+        r.outcome("minting-wallet:history-checked");
+        r
+    });
+    for r in results {
+        rep.merge(r);
+    }
+}
+
 fn state_digest(w: &W) -> Hash {
     let mut o = w.p.node.obs();
     o.files.clear();
@@ -805,6 +886,7 @@ pub fn main(tier: Tier, _replay: Option<String>) -> i32 {
     rep.distinct = all_seen.iter().map(|h| hex::encode(&h[0..8])).collect();
     lite_wallets(&mut rep, &tier);
     passive_wallets(&mut rep, &tier);
+    minting_wallets(&mut rep);
     rep.sample(json!({"history": ["In1", "Block", "OutSmall", "Block", "ReorgAway1", "ReorgBack"]}));
     rep.required_outcomes = vec!["wallet-tx-built".into(), "reorg-away".into(), "reorg-back".into(), "lite-wallet:built-transaction-valid-on-the-full-ledger".into(), "lite-wallet:placeholders-folded-up-to-2".into(), "passive-wallet:agrees-with-ledger-after-block".into()];
     rep.finish()
